@@ -28,7 +28,7 @@ Qed.
    creation) every version table satisfies its primary key and every validity-strategy table the
    chain; each table of a hierarchy is a separate table id and is covered separately *)
 Theorem C03_reachable_chain : forall g evs,
-  cfg_consistent g ->
+  cfg_consistent g -> flat_hier g ->
   pk_unique (d_vt (s_db (run g evs))) /\
   (forall r, In r (d_vt (s_db (run g evs))) -> tab_valid g (hd 0 (vkey r)) = true ->
              vend r = min_above (d_vt (s_db (run g evs))) (vkey r) (vtx r)).
